@@ -118,7 +118,7 @@ theorem split_bgpls_known (code : Nat) (v rest : Bytes) (hc : code < 65536) (hv 
 theorem split_bgpls_vpn_known (code : Nat) (v rest : Bytes) (hc : code < 65536) (hv : v.length < 65536)
     (hk : bgplsCodes.contains code = true) (h8 : 8 ≤ v.length) :
     splitBgpls true (be16 code ++ be16 v.length ++ v ++ rest)
-      = some ⟨be16 code ++ be16 v.length ++ v, be16 code ++ be16 (v.length - 8) ++ v.drop 8, rest⟩ := by
+      = some ⟨be16 code ++ be16 v.length ++ v, be16 code ++ be16 v.length ++ v, rest⟩ := by
   unfold splitBgpls
   have hl : (be16 code ++ be16 v.length ++ v ++ rest).length = 4 + v.length + rest.length := by simp; try omega
   have hcode : rd16 (be16 code ++ be16 v.length ++ v ++ rest) = code := by
@@ -138,8 +138,6 @@ theorem split_bgpls_vpn_known (code : Nat) (v rest : Bytes) (hc : code < 65536) 
   have d : (be16 code ++ be16 v.length ++ v ++ rest).drop (4 + v.length) = rest :=
     List.drop_left' (by simp; try omega)
   rw [t, d]
-  have : (be16 code ++ be16 v.length ++ v).drop 12 = v.drop 8 := by simp [be16]
-  rw [this]
 
 /-! #### FlowSpec -/
 
@@ -202,10 +200,9 @@ theorem split_vpls (v : Bytes) (hv : v.length = 17) :
   have hl : (be16 v.length ++ v).length = 19 := by simp [hv]
   have hr : rd16 (be16 v.length ++ v) = 17 := by rw [rd16_be16 _ (by omega)]; exact hv
   simp only [hl, hr, vplsPayloadSize]
-  have : (be16 v.length ++ v).take 2 ++ ((be16 v.length ++ v).drop 2).take 17 = be16 v.length ++ v := by
-    have h1 : (be16 v.length ++ v).take 2 = be16 v.length := List.take_left' (by simp)
+  have : be16 17 ++ ((be16 v.length ++ v).drop 2).take 17 = be16 v.length ++ v := by
     have h2 : (be16 v.length ++ v).drop 2 = v := List.drop_left' (by simp)
-    rw [h1, h2, List.take_of_length_le (by omega)]
+    rw [h2, List.take_of_length_le (by omega), hv]
   simp [this]
 
 /-- A second NLRI after a VPLS NLRI makes the decoder refuse both. -/
@@ -297,7 +294,7 @@ theorem split_prefix (k : Kind) (c : Cfg) (d : Bytes) (cut : Cut) (h : split k c
         · cases h
         · split at h
           · cases h
-          · split at h <;> (cases h; simp)
+          · cases h; simp
   · unfold splitFlow splitFlowWith at h
     split at h
     · cases h
